@@ -430,8 +430,8 @@ def o_bbox(case, T):
 
 
 def build(chk: Check) -> None:
-    chk.sub("setops", o_setops, strategy=s_setops(), n={"quick": 2500, "thorough": 300000})
-    chk.sub("reject", o_reject, strategy=s_reject(), n={"quick": 2500, "thorough": 300000})
-    chk.sub("snap_to", o_snap, strategy=s_snap(), n={"quick": 3000, "thorough": 300000})
+    chk.sub("setops", o_setops, cov={"quick": 1200, "thorough": 150000}, strategy=s_setops(), n={"quick": 2500, "thorough": 300000})
+    chk.sub("reject", o_reject, cov={"quick": 1200, "thorough": 150000}, strategy=s_reject(), n={"quick": 2500, "thorough": 300000})
+    chk.sub("snap_to", o_snap, cov={"quick": 1200, "thorough": 150000}, strategy=s_snap(), n={"quick": 3000, "thorough": 300000})
     chk.sub("enclosing", o_enclosing, strategy=s_enclosing(), n={"quick": 2500, "thorough": 200000})
     chk.sub("bbox_lattice", o_bbox, strategy=s_bbox(), n={"quick": 5000, "thorough": 500000})
